@@ -1,27 +1,29 @@
+module List = Stdlib.List
 (* Conversions between OCaml values and the extracted Coq datatypes. *)
-open Model
+open BinNums
+open Datatypes
 
 let rec pos_of_int (i : int) : positive =
-  if i = 1 then XH else if i land 1 = 0 then XO (pos_of_int (i lsr 1)) else XI (pos_of_int (i lsr 1))
-let n_of_int i : n = if i = 0 then N0 else if i < 0 then failwith "n_of_int" else Npos (pos_of_int i)
-let z_of_int i : z = if i = 0 then Z0 else if i > 0 then Zpos (pos_of_int i) else Zneg (pos_of_int (- i))
+  if i = 1 then Coq_xH else if i land 1 = 0 then Coq_xO (pos_of_int (i lsr 1)) else Coq_xI (pos_of_int (i lsr 1))
+let n_of_int i : coq_N = if i = 0 then N0 else if i < 0 then failwith "n_of_int" else Npos (pos_of_int i)
+let z_of_int i : coq_Z = if i = 0 then Z0 else if i > 0 then Zpos (pos_of_int i) else Zneg (pos_of_int (- i))
 let rec nat_of_int i : nat = if i <= 0 then O else S (nat_of_int (i - 1))
-let rec int_of_pos = function XH -> 1 | XO p -> 2 * int_of_pos p | XI p -> 2 * int_of_pos p + 1
+let rec int_of_pos = function Coq_xH -> 1 | Coq_xO p -> 2 * int_of_pos p | Coq_xI p -> 2 * int_of_pos p + 1
 let int_of_n = function N0 -> 0 | Npos p -> int_of_pos p
 let int_of_z = function Z0 -> 0 | Zpos p -> int_of_pos p | Zneg p -> - (int_of_pos p)
 let rec int_of_nat = function O -> 0 | S n -> 1 + int_of_nat n
 
 (* byte strings travel as "x" ^ hex *)
-let str_of_hex (h : string) : n list =
+let str_of_hex (h : string) : coq_N list =
   if String.length h = 0 || h.[0] <> 'x' then failwith ("hex atom expected: " ^ h);
   let l = (String.length h - 1) / 2 in
   List.init l (fun i -> n_of_int (int_of_string ("0x" ^ String.sub h (1 + 2 * i) 2)))
-let hex_of_str (s : n list) : string =
+let hex_of_str (s : coq_N list) : string =
   let b = Buffer.create 16 in
   Buffer.add_char b 'x';
   List.iter (fun c -> Buffer.add_string b (Printf.sprintf "%02x" (int_of_n c))) s;
   Buffer.contents b
-let ocaml_string_of_str (s : n list) : string =
+let ocaml_string_of_str (s : coq_N list) : string =
   String.init (List.length s) (fun i -> Char.chr (int_of_n (List.nth s i)))
 
 let str x = str_of_hex (Sx.atom x)
